@@ -29,14 +29,25 @@ func VerifC23MonthlyCredit() { verifC23MonthlyCredit(100) }
 // reasoning, so a wrong normalisation is found as a concrete counterexample rather than left unknown
 func VerifC23MonthlyCreditSmall() { verifC23MonthlyCredit(verif_param("bits", 12)) }
 
-func verifC23MonthlyCredit(bits int) {
+// the same from a stored entry whose credit timestamp may also lie after its delegation timestamp (a state
+// SetDelegation produces when it re-stamps an imported entry: InitGenesis keeps Credit/CreditTimestamp and overwrites
+// Timestamp with the block time); the bounds must hold there as well
+func VerifC23MonthlyCreditAnyOrder() { verifC23MonthlyCreditOrd(verif_param("bits", 12), false) }
+
+func verifC23MonthlyCredit(bits int) { verifC23MonthlyCreditOrd(bits, true) }
+
+func verifC23MonthlyCreditOrd(bits int, ordered bool) {
 	k := Keeper{stakingKeeper: verifC23Staking{}}
 	now := verif_nondet_in("now", 2, 1<<40)
 	ts := verif_nondet_in("delegation.Timestamp", 0, 1<<40)
 	cts := verif_nondet_in("delegation.CreditTimestamp", 0, 1<<40)
 	amount := verif_nondet_ubig("amount", bits)
 	credit := verif_nondet_ubig("credit", bits)
-	verif_assume(cts <= ts && ts <= now)
+	if ordered {
+		verif_assume(cts <= ts && ts <= now)
+	} else {
+		verif_assume(cts <= now && ts <= now)
+	}
 	d := types.Delegation{Provider: "p", Delegator: "d", Amount: verifC23Coin(amount), Credit: verifC23Coin(credit), Timestamp: ts, CreditTimestamp: cts}
 	ctx := verifC23Ctx(now)
 
